@@ -10,7 +10,7 @@ use std::fs::{File, OpenOptions, read, read_dir};
 use crate::vfs as fs;
 #[cfg(feature = "verif_sim")]
 use crate::vfs::{File, OpenOptions, read, read_dir};
-use std::io::{BufWriter, Cursor, Seek, SeekFrom, Write};
+use std::io::{BufWriter, Cursor, Read, Seek, SeekFrom, Write};
 use std::path::{Path, PathBuf};
 
 use crate::ByteBuffer;
@@ -210,8 +210,20 @@ struct SqpkAddData {
     #[br(map = | x : u32 | (x as u64) << 7 )]
     block_delete_number: u64,
 
-    #[br(count = block_number)]
+    #[br(parse_with = read_exact_len, args(block_number))]
     block_data: Vec<u8>,
+}
+
+/// Reads exactly `length` bytes, growing the buffer with the data that is actually present
+/// rather than reserving `length` (which comes from the file) up front.
+#[binrw::parser(reader)]
+fn read_exact_len(length: u64) -> binrw::BinResult<Vec<u8>> {
+    let mut data = Vec::new();
+    std::io::Read::take(&mut *reader, length).read_to_end(&mut data)?;
+    if data.len() as u64 != length {
+        return Err(binrw::Error::Io(std::io::ErrorKind::UnexpectedEof.into()));
+    }
+    Ok(data)
 }
 
 #[binrw]
